@@ -24,15 +24,27 @@ class MPSReject(Exception):
 
 class Problem:
     __slots__ = ("ncols", "colnames", "rows", "rownames", "obj", "lo", "hi",
-                 "isint", "col_rows", "text_hash")
+                 "isint", "col_rows", "text_hash", "obj_scale")
+
+
+from fractions import Fraction
 
 
 def _num(tok):
+    """Exact rational value of an MPS number (12 significant digits)."""
     f = float(tok)
     i = int(round(f))
-    if abs(f - i) > 1e-9:
-        raise HarnessError("FakeCBC: non-integral datum %r" % tok)
-    return i
+    if abs(f - i) <= 1e-9:
+        return i
+    return Fraction(f).limit_denominator(10 ** 6)
+
+
+def _lcd(values):
+    d = 1
+    for v in values:
+        if isinstance(v, Fraction):
+            d = d * v.denominator // math.gcd(d, v.denominator)
+    return d
 
 
 def parse_mps(text):
@@ -149,9 +161,23 @@ def parse_mps(text):
     for r in roworder:
         sense, rhs, d = rows[r]
         items = sorted(d.items())
-        p.rows.append((sense, rhs, tuple(c for c, _ in items),
-                       tuple(v for _, v in items)))
-    p.obj = obj
+        # scale the row to integer coefficients; a fractional right-hand side
+        # over integer columns is then tightened exactly
+        m = _lcd([v for _, v in items])
+        coefs = [int(v * m) for _, v in items]
+        rhs = rhs * m
+        if isinstance(rhs, Fraction) and rhs.denominator != 1:
+            if sense == "L":
+                rhs = math.floor(rhs)
+            elif sense == "G":
+                rhs = math.ceil(rhs)
+            else:
+                sense, rhs = "X", 0      # equality with fractional rhs: impossible
+        rhs = int(rhs)
+        p.rows.append((sense, rhs, tuple(c for c, _ in items), tuple(coefs)))
+    m = _lcd(list(obj.values()))
+    p.obj = {c: int(v * m) for c, v in obj.items()}
+    p.obj_scale = m
     p.col_rows = [[] for _ in range(p.ncols)]
     for ri, (_, _, cs, _) in enumerate(p.rows):
         for c in cs:
@@ -187,6 +213,8 @@ def propagate(p, lo, hi, dirty):
             else:
                 mn += a * hi[c]
                 mx += a * lo[c]
+        if sense == "X":                   # equality with fractional rhs
+            return False
         if sense != "G" and mn > rhs:      # L or E: sum <= rhs
             return False
         if sense != "L" and mx < rhs:      # G or E: sum >= rhs
@@ -349,7 +377,8 @@ def enumerate_ilp(p, observed, maximize, node_cap=5_000_000):
         res.status = "Infeasible"
         return res
     res.status = "Optimal"
-    res.optimum = sign * best[0]
+    res.optimum = sign * best[0] / getattr(p, "obj_scale", 1) \
+        if getattr(p, "obj_scale", 1) != 1 else sign * best[0]
     res.classes = classes
     return res
 
@@ -363,7 +392,7 @@ def check_point(p, vec):
     for ri, (sense, rhs, cs, vs) in enumerate(p.rows):
         act = sum(a * vec[c] for c, a in zip(cs, vs))
         ok = (act <= rhs if sense == "L" else act >= rhs if sense == "G"
-              else act == rhs)
+              else act == rhs if sense == "E" else False)
         if not ok:
             bad.append("row:" + p.rownames[ri])
     return bad
